@@ -81,9 +81,16 @@ static void run_op(const std::vector<std::string> &w, const std::string &, out &
     }
     if (op == "vecbuf")
     {
-        // the buffer the self-sizing overload allocates: ret.resize(sz*2+4) on an empty vector
-        // allocates exactly that many bytes and the later shrinking resize keeps the allocation,
-        // so capacity() of the returned vector is the buffer size the frame was written into
+        // The self-sizing overloads.  Round 3b (CORRECTION, benign change C04-b13-1): the property says "the frame
+        // is at most 2n+4 bytes long" and "the encoders that size their own output buffer never write outside
+        // it" - it does NOT say that the buffer has the worst-case size.  An overload that measures the frame
+        // first and allocates exactly its length satisfies every clause.  So the capacity of the returned vector
+        // is no longer part of the compared result (it is reported as a tag) and the oracle demands only:
+        // capacity() >= size() = frame length, frame length <= 2n+4, every clause of the frame sentence, both
+        // twins return the same frame - and no store outside the allocation, which is ASan's job on the real
+        // vector (operator new block of exactly the requested size): the stream contains, for every self-sizing
+        // overload, worst-case payloads (every byte needs escaping AND the CRC is a marker) at many lengths, so
+        // an under-sized allocation (seeded 2n+2 / 2n+3) overflows under ASan.
         std::vector<bytes> pieces;
         for (size_t i = 2; i < w.size(); i++) pieces.push_back(unhex(w[i]));
         gstuff_context ctx;
@@ -95,21 +102,27 @@ static void run_op(const std::vector<std::string> &w, const std::string &, out &
             bufs.push_back(new exact_buf(x));
             vec.push_back(iovec{bufs.back()->p, x.size()});
         }
+        bytes p;
+        for (auto &x : pieces) p.insert(p.end(), x.begin(), x.end());
+        size_t n = p.size();
+        auto judge = [&](const std::vector<uint8_t> &f, const char *who) {
+            if (f.capacity() < f.size()) o.fail(std::string(who) + ": capacity() of the returned vector < its size()");
+            if (f.size() > 2 * n + 4) o.fail(std::string(who) + ": frame longer than 2n+4");
+            o.tag(f.capacity() == f.size() ? "alloc-exact" : f.capacity() == 2 * n + 4 ? "alloc-2n+4" : f.capacity() < 2 * n + 4 ? "alloc-between" : "alloc-more");
+        };
         std::vector<uint8_t> f = gstuffing_v(vec.data(), vec.size(), ctx);
-        size_t n = total_len(pieces);
-        // Canonical observable (round 3, correction): the property fixes only that the buffer is large enough
-        // for every frame of that payload length (2n+4); a growth policy that allocates MORE (reserve with
-        // slack, a twin that rounds up) is not a violation, so the value compared with the model is
-        // min(capacity, 2n+4) - the model's vecBufSize - and each twin is judged on its own.
-        size_t cap = f.capacity();
-        if (f.capacity() < 2 * n + 4) o.fail("self-sized buffer smaller than the worst-case frame 2n+4");
+        judge(f, "gstuffing_v(vec)");
         if (pieces.size() == 1)
         {
             std::vector<uint8_t> g = gstuffing(igris::buffer((char *)bufs[0]->p, pieces[0].size()), ctx);
-            if (g.capacity() < 2 * n + 4) o.fail("gstuffing(buffer): self-sized buffer smaller than the worst-case frame 2n+4");
-            cap = std::min(cap, g.capacity());
+            judge(g, "gstuffing(buffer)");
+            if (g != f) o.fail("gstuffing(buffer) != gstuffing_v(vec)");
+            o.tag("both-twins");
         }
-        o.result = std::to_string(std::min(cap, 2 * n + 4));
+        else
+            o.tag("iovec");
+        o.result = std::to_string(f.size());
+        check_frame(codec, p, f, o);
         for (auto b : bufs) delete b;
         o.tag("self-sized");
         return;
@@ -167,248 +180,7 @@ static void run_op(const std::vector<std::string> &w, const std::string &, out &
     o.result = "bad-op";
 }
 
-// ------------------------------------------------------------------ gen
-static const char *CODECS[3] = {"v1", "v0", "leg"};
-
-static bytes rnd_payload(rng &r, const alphabet &a, size_t n)
-{
-    bytes p(n);
-    int mode = (int)r.below(3);
-    const uint8_t sp[] = {a.start, a.stop, a.stub, a.s_start, a.s_stop, a.s_stub, 0x00, 0xff, 0x41};
-    for (auto &x : p)
-        x = (mode == 0 || (mode == 1 && r.chance(40))) ? sp[r.below(sizeof sp)] : (uint8_t)r.next();
-    return p;
-}
-
-// a well-formed custom alphabet (Ctx.WF of the model): escape byte and escape codes differ from the markers,
-// the code of the escape byte differs from the other two codes, the codes of start and stop differ when the
-// markers do.  start == stop alphabets are generated too.
-static alphabet rnd_alphabet(rng &r)
-{
-    while (true)
-    {
-        alphabet a;
-        a.start = (uint8_t)r.next();
-        a.stop = r.chance(35) ? a.start : (uint8_t)r.next();
-        a.stub = (uint8_t)r.next();
-        a.s_start = (uint8_t)r.next();
-        a.s_stop = (a.start == a.stop && r.chance(50)) ? a.s_start : (uint8_t)r.next();
-        a.s_stub = (uint8_t)r.next();
-        bool ok = a.stub != a.start && a.stub != a.stop && a.s_start != a.start && a.s_start != a.stop &&
-                  a.s_stop != a.start && a.s_stop != a.stop && a.s_stub != a.start && a.s_stub != a.stop &&
-                  a.s_stub != a.s_start && a.s_stub != a.s_stop && (a.start == a.stop || a.s_stop != a.s_start);
-        if (ok) return a;
-    }
-}
-
-// payload over the markers of EVERY alphabet of the session (a byte that is a marker in one alphabet must go
-// out as it is under another one), plus 00 41
-static bytes sess_payload(rng &r, const std::vector<alphabet> &as, size_t n)
-{
-    bytes pool = {0x00, 0x41};
-    for (auto &a : as) { const uint8_t *q = (const uint8_t *)&a; pool.insert(pool.end(), q, q + 6); }
-    bytes p(n);
-    for (auto &x : p) x = r.chance(85) ? pool[r.below(pool.size())] : (uint8_t)r.next();
-    return p;
-}
-static std::string pieces_tok(rng &r, const bytes &p)
-{
-    int k = (int)r.range(1, 3);
-    std::vector<size_t> cuts;
-    for (int i = 0; i < k - 1; i++) cuts.push_back(r.below(p.size() + 1));
-    std::sort(cuts.begin(), cuts.end());
-    cuts.push_back(p.size());
-    std::string s;
-    size_t prev = 0;
-    for (size_t i = 0; i < cuts.size(); i++)
-    {
-        s += (i ? "/" : "") + hex(bytes(p.begin() + prev, p.begin() + cuts[i]));
-        prev = cuts[i];
-    }
-    return s;
-}
-
-// SESSIONS (seeded change C04-escape-table-cached-by-ctx-address): the encoder is called again and again with
-// the SAME gstuff_context object whose contents changed in between (v1 -> v0 -> custom -> back ...), into the
-// same output buffer; each frame is decoded by the one receiver object re-constructed from the context as it
-// is at that moment
-static void gen_sessions(rng &r, bool th)
-{
-    alphabet v1 = alpha_of(gstuff_context()), v0 = alpha_of(gstuff_context_v0());
-    for (int rep = 0; rep < (th ? 1500 : 160); rep++)
-    {
-        std::vector<alphabet> as;
-        int na = (int)r.range(2, 6);
-        if (rep % 4 == 0) as = {v1, v0, rnd_alphabet(r), v1, v0};            // the order of the task
-        else if (rep % 4 == 1) as = {v0, v1, v0, v1};
-        else
-            for (int i = 0; i < na; i++) as.push_back(r.chance(30) ? v1 : r.chance(40) ? v0 : rnd_alphabet(r));
-        size_t maxn = rep % 7 == 0 ? 120 : 12;
-        size_t outcap = 2 * maxn + 4, blkcap = maxn + 8;
-        std::string line = "seq " + std::to_string(outcap) + " " + std::to_string(blkcap);
-        bool first = true;
-        for (auto &a : as)
-        {
-            // the first alphabet of a session may be the default-constructed one: no mutation at all
-            if (!(first && same_alpha(a, v1) && r.chance(70))) line += " A" + alpha_hex(a);
-            first = false;
-            int ne = (int)r.range(1, 2);
-            for (int e = 0; e < ne; e++)
-            {
-                bytes p = sess_payload(r, as, r.below(maxn + 1));
-                int kind = (int)r.below(10);
-                line += (kind < 7 ? " E" : " V") + pieces_tok(r, p);
-                if (r.chance(75))
-                {
-                    size_t cap = p.size() + 2 + r.below(4);
-                    if (r.chance(8) && p.size() > 0) cap = 1 + r.below(p.size() + 1);
-                    line += r.chance(70) ? " N" : "";
-                    line += (r.chance(50) ? " I" : " S") + std::to_string(std::min(cap, blkcap)) + " F";
-                    if (r.chance(25)) line += " F";          // the same frame once more, no init in between
-                    if (r.chance(10)) line += " R F";
-                }
-            }
-            if (r.chance(15))
-            {
-                bytes p = sess_payload(r, as, r.below(maxn + 1));
-                line += " G" + hex(p) + " ls" + std::to_string(std::min(p.size() + 2 + r.below(3), blkcap)) + " lf";
-                if (r.chance(30)) line += " lf";
-            }
-        }
-        puts(line.c_str());
-    }
-}
-
-static void gen(rng &r, const std::string &tier)
-{
-    bool th = tier == "thorough";
-    puts("ctx");
-    puts("sizes");
-    puts("premain");
-    gen_sessions(r, th);
-    // >= 300 KiB payloads, once per codec: all markers, all escape bytes, mixed
-    {
-        const char *cs[3] = {"v1", "v0", "leg"}, *ks[3] = {"mark", "esc", "mix"};
-        for (auto c : cs)
-            for (auto k : ks)
-                printf("long %s %s %d %d\n", c, k, ((th || k != ks[2]) ? 307200 : 100000) + (int)r.below(64), (int)r.below(1000000));
-        for (auto c : cs)
-            for (int n : {0, 1, 2, 255, 256, 257, 65535, 65536, 65537})
-                printf("long %s %s %d %d\n", c, ks[n % 3], n, (int)r.below(1000000));
-    }
-    for (int ci = 0; ci < 3; ci++)
-    {
-        const char *codec = CODECS[ci];
-        // the alphabets are compile-time constants of the repo; the generator
-        // reads them from the same headers as the harness
-        alphabet a = alpha_by(codec);
-        // (1) exhaustive payloads over {START, STOP, STUB, 00, 41}
-        const uint8_t al[5] = {a.start, a.stop, a.stub, 0x00, 0x41};
-        int maxlen = th ? 6 : 5;
-        for (int len = 0; len <= maxlen; len++)
-        {
-            int total = 1;
-            for (int i = 0; i < len; i++) total *= 5;
-            for (int code = 0; code < total; code++)
-            {
-                bytes p;
-                for (int i = 0, c = code; i < len; i++, c /= 5) p.push_back(al[c % 5]);
-                printf("rt %s %d %s\n", codec, len + 2 + (int)(code % 3), hex(p).c_str());
-                if (ci < 2 && (th || len <= 3))
-                    printf("encvec %s %s\n", codec, hex(p).c_str());
-            }
-        }
-        // (1b) worst-case frames: every payload byte needs escaping AND the CRC
-        // needs escaping (frame length exactly 2n+4): all such payloads up to length 7 (thorough 9)
-        {
-            const uint8_t mk[3] = {a.start, a.stop, a.stub};
-            for (int len = 1; len <= (th ? 9 : 7); len++)
-            {
-                int total = 1;
-                for (int i = 0; i < len; i++) total *= 3;
-                for (int code = 0; code < total; code++)
-                {
-                    bytes p;
-                    for (int i = 0, c = code; i < len; i++, c /= 3) p.push_back(mk[c % 3]);
-                    uint8_t crc = ref_crc8(p);
-                    if (crc != a.start && crc != a.stop && crc != a.stub) continue;
-                    printf("rt %s %d %s\n", codec, len + 2, hex(p).c_str());
-                    if (ci < 2) printf("encvec %s %s\n", codec, hex(p).c_str());
-                }
-            }
-        }
-        // (2) payloads whose CRC is each marker / escape code
-        const uint8_t targets[] = {a.start, a.stop, a.stub, a.s_start, a.s_stub, 0x00, 0xff};
-        for (int rep = 0; rep < (th ? 40 : 6); rep++)
-            for (uint8_t t : targets)
-            {
-                bytes p = rnd_payload(r, a, r.below(12));
-                p.push_back(0);
-                for (int x = 0; x < 256; x++)
-                {
-                    p.back() = (uint8_t)x;
-                    if (ref_crc8(p) == t) break;
-                }
-                printf("rt %s %d %s\n", codec, (int)p.size() + 2 + (int)r.below(3), hex(p).c_str());
-                if (ci < 2) printf("encvec %s %s\n", codec, hex(p).c_str());
-            }
-        // (3) random payloads 0..600, random iovec partitions
-        for (int rep = 0; rep < (th ? 1500 : 150); rep++)
-        {
-            size_t n = r.chance(70) ? r.below(40) : r.below(601);
-            bytes p = rnd_payload(r, a, n);
-            printf("rt %s %d %s\n", codec, (int)n + 2 + (int)r.below(5), hex(p).c_str());
-            if (ci < 2)
-            {
-                // split into 1..5 pieces, empty pieces allowed
-                int k = (int)r.range(1, 5);
-                std::vector<size_t> cuts;
-                for (int i = 0; i < k - 1; i++) cuts.push_back(r.below(n + 1));
-                std::sort(cuts.begin(), cuts.end());
-                std::string line1 = std::string("enc ") + codec, line2 = std::string("encvec ") + codec;
-                size_t prev = 0;
-                cuts.push_back(n);
-                for (size_t c : cuts)
-                {
-                    std::string h = hex(bytes(p.begin() + prev, p.begin() + c));
-                    line1 += " " + h;
-                    line2 += " " + h;
-                    prev = c;
-                }
-                puts(line1.c_str());
-                puts(line2.c_str());
-            }
-            else
-                printf("enc leg %s\n", hex(p).c_str());
-        }
-        // (3b) size of the self-allocated buffer
-        if (ci < 2)
-            for (int rep = 0; rep < (th ? 200 : 30); rep++)
-            {
-                size_t n = rep < 8 ? (size_t)rep : r.below(300);
-                bytes p = rnd_payload(r, a, n);
-                size_t cut = r.below(n + 1);
-                if (rep % 2) printf("vecbuf %s %s\n", codec, hex(p).c_str());
-                else printf("vecbuf %s %s %s\n", codec, hex(bytes(p.begin(), p.begin() + cut)).c_str(), hex(bytes(p.begin() + cut, p.end())).c_str());
-            }
-        // (4) receive buffers that are too small: must report overflow
-        for (int rep = 0; rep < (th ? 300 : 40); rep++)
-        {
-            size_t n = 1 + r.below(30);
-            bytes p = rnd_payload(r, a, n);
-            printf("rt %s %d %s\n", codec, (int)r.range(2, (int)n + 1), hex(p).c_str());
-        }
-    }
-    // (5) recorded finding C04-legacy-line-keeps-crc: the legacy receiver leaves the CRC byte in
-    // the line it hands over
-    {
-        alphabet a = alpha_leg();
-        for (int rep = 0; rep < 12; rep++)
-        {
-            bytes p = rnd_payload(r, a, rep < 3 ? (size_t)rep : r.below(20));
-            printf("@F:C04-legacy-line-keeps-crc rtraw leg %d %s\n", (int)p.size() + 2 + (int)r.below(3), hex(p).c_str());
-        }
-    }
-}
+// the generator is a separate translation unit (harness/C04gen.cpp) since round 3b: compiled in parallel
+void gen(rng &r, const std::string &tier);
 
 int main(int argc, char **argv) { return main_(argc, argv, gen, run_op); }
